@@ -10,9 +10,11 @@
 //!               slots with `blake2b_simd`.
 //!
 //! Sub-commands (all print one JSON object on the last stdout line):
-//!   merge   <cases.ndjson> <out.json> <tier>   spec -> code: TLC-enumerated merge cases
-//!   roles   <trace.ndjson> <n> <tier>          code -> spec: seeded random role sequences
-//!   rerun   <replay.json>                      re-executes one recorded case / role sequence
+//!   merge   <cases.ndjson> <tier>       spec -> code: TLC-enumerated merge cases on Combiner::combine
+//!   roles   <trace.ndjson> <n> <tier>   code -> spec: n seeded random role sequences, logged as ndjson
+//!   rerun   <replay.json>               re-executes one recorded merge case
+//!   probe | probe_prove                 (development) dumps the bases' slots / times the provers
+//!   probe_bsk | probe_lock              the two defects found on the pinned tree, through the public API
 #![allow(clippy::too_many_arguments, clippy::type_complexity)]
 
 use std::collections::{BTreeMap, BTreeSet};
